@@ -414,6 +414,8 @@ static void do_step(const Step &st) {
   } else if (op == "fault") {   // fault <k> [kind]: inject an LPC error at the k-th instruction from now
     S.fault_countdown = atol(st.a[0].c_str());
     S.fault_kind = st.a.size() > 1 ? st.a[1] : "error";
+  } else if (op == "fsopt") {        // fsopt <short_read mode | -1> <eio at the k-th read from now | -1>
+    files_set_read_faults(atol(st.a[0].c_str()), st.a.size() > 1 ? atol(st.a[1].c_str()) : -1);
   } else if (op == "fsarm") {        // fsarm <n>: the disk stops at the n-th mutating file call from now
     files_arm_stop(atol(st.a[0].c_str()));
   } else if (op == "fsdisarm") {
